@@ -261,7 +261,7 @@ fn build_side(ctx: &mut Ctx) {
     use multiboot2::MaybeDynSized;
     const SYMS: [&str; 6] = ["a", "\u{e9}", "\u{20ac}", "\0", " ", "\n"];
     let maxsym = if ctx.quick() { 4 } else { 6 };
-    ctx.bound("build", format!("all strings over {{a, e-acute (2 bytes), euro sign (3 bytes), NUL, space, newline}} up to {} symbols plus strings of every length 0..=300 and 1023..1025, 4095..4097, 65535..65537 (ASCII, and with a multi-byte last character), for CommandLineTag::new, BootLoaderNameTag::new and ModuleTag::new", maxsym));
+    ctx.bound("build", format!("all strings over {{a, e-acute (2 bytes), euro sign (3 bytes), NUL, space, newline}} up to {} symbols plus strings of every length 0..=300 and 1023..1025, 4095..4097, 65535..65537 (ASCII, and with a multi-byte last character), and every ASCII character plus five multi-byte ones alone / first / last / doubled / next to a space, for CommandLineTag::new, BootLoaderNameTag::new and ModuleTag::new", maxsym));
     let mut texts: Vec<String> = Vec::new();
     for n in 0..=maxsym {
         for code in 0..6usize.pow(n as u32) {
@@ -280,6 +280,14 @@ fn build_side(ctx: &mut Ctx) {
             // the same length in bytes, ending in a two-byte character
             let mut t: String = (0..n - 2).map(|i| (b'a' + (i % 26) as u8) as char).collect();
             t.push('\u{e9}');
+            texts.push(t);
+        }
+    }
+    // content-dependent handling (trimming, collapsing, case folding, escaping): every ASCII character and a few
+    // multi-byte ones alone, at the start, at the end, doubled, and around a space
+    for cp in (1u32..128).chain([0xE9, 0x20AC, 0x1F600, 0xA0, 0x2028]) {
+        let ch = char::from_u32(cp).unwrap();
+        for t in [format!("{}", ch), format!("x{}", ch), format!("{}x", ch), format!("{}{}", ch, ch), format!("a {}b", ch), format!("A{}Z{}", ch, ch)] {
             texts.push(t);
         }
     }
